@@ -168,7 +168,7 @@ func runOp(c *h.Ctx, st *caseState, op string) string {
 			return "keep " + listingLabels(res)
 		}
 		c.Count("process:drop")
-		return "drop " + listingLabels(res)
+		return "drop"
 	case "rx":
 		pat, s, tmpl := string(h.UnHex(f[1])), string(h.UnHex(f[2])), string(h.UnHex(f[3]))
 		re, err := relabel.NewRegexp(pat)
